@@ -113,6 +113,15 @@ where
         .then_ignore(new_line())
         .validate(|args, extra, emit| {
             let span = extra.span();
+            let mut seen = std::collections::HashSet::new();
+            for (name, _) in &args {
+                if !seen.insert(name.clone()) {
+                    emit.emit(Rich::custom(
+                        span,
+                        format!("duplicate query definition argument `{name}`"),
+                    ));
+                }
+            }
             let mut args: HashMap<_, _> = args.into_iter().collect();
 
             let version = args.remove("version").and_then(|v| match v.kind {
